@@ -47,8 +47,19 @@ def main():
         sys.exit(2)
     except SystemExit:
         raise
-    except Exception:
+    except Exception as ex:
         traceback.print_exc()
+        # An exception raised INSIDE the library on one of the check's (valid) inputs is a verdict about the library,
+        # not about the machinery: every check's input families are inputs on which the property promises a result.
+        tb = traceback.extract_tb(ex.__traceback__)
+        lib = os.path.abspath(REPO) + '/teneva/'
+        if tb and os.path.abspath(tb[-1].filename).startswith(lib) and 'ctx' in locals():
+            where = '%s:%s' % (os.path.relpath(tb[-1].filename, REPO), tb[-1].name)
+            caller = next((f for f in reversed(tb) if '/harness/' in f.filename), None)
+            ctx.violation('raised:' + where, 'the library raised %s: %s in %s (called from %s line %s) on an input of the check'
+                          % (type(ex).__name__, ex, where, caller.name if caller else '?', caller.lineno if caller else '?'),
+                          case={'traceback': traceback.format_exc()})
+            sys.exit(ctx.finish())
         print('MACHINERY-FAILURE %s: unexpected exception in the harness' % pid)
         sys.exit(2)
 
